@@ -13,6 +13,7 @@ from kverif.common import Deadline, case_rng, stable_hash, tier_value
 ID = 'C14'
 LEVEL = 'exploration'
 EXHAUSTIVE = True
+EXHAUSTIVE_SCOPE = 'round-trip part: every n in 1..N x 4 dtypes x 4 contents x 3 layouts; the communication part is sampled'
 RULE = ('every n in 1..N (quick 256, thorough 1024) x {float16,bfloat16,float32,float64} x contents {min(i,j), max(i,j), random symmetric, '
         'n*i+j symmetrised} x layouts {contiguous, transposed view, strided slice}: exact round trip and packed length n(n+1)/2; '
         'simulated worlds of 2-4 ranks: symmetric vs dense allreduce/broadcast/bucketed exact equality; non-square and non-2-D shapes must raise '
